@@ -39,6 +39,7 @@ var depths = map[string][4]int{
 	"returned": {2, 3, 1, 1},
 	"v2ready":  {2, 3, 1, 1},
 	"public":   {2, 3, 1, 1},
+	"claim":    {1, 2, 1, 2},
 }
 
 // artefact of a violation / replay
@@ -299,7 +300,7 @@ func (e *explorer) compare(sk *dposkit.Sink, in *dposkit.Inst, h []string, k int
 	need := !cached
 	if cached {
 		for _, f := range fields {
-			if !sk.Seen(fmt.Sprintf("C21|%s|field=%s", clause, f)) {
+			if !sk.Seen(fmt.Sprintf("C21|%s|field=%s", clause, f) + blockClass(clause, h)) {
 				need = true // first report of this signature in this shard: produce the example text
 			}
 		}
@@ -325,12 +326,12 @@ func (e *explorer) compare(sk *dposkit.Sink, in *dposkit.Inst, h []string, k int
 		}
 		e.memo.mu.Unlock()
 		for _, f := range fields {
-			sig := fmt.Sprintf("C21|%s|field=%s", clause, f)
+			sig := fmt.Sprintf("C21|%s|field=%s", clause, f) + blockClass(clause, h)
 			if sk.Has(sig) {
 				continue
 			}
 			var diff []string
-			base := strings.TrimSuffix(f, "[membership]")
+			base := strings.TrimSuffix(strings.TrimSuffix(strings.TrimSuffix(f, "[membership]"), "[extra]"), "[missing]")
 			for _, l := range all {
 				if strings.HasPrefix(lineGroup(l[2:]), base) && len(diff) < 6 {
 					diff = append(diff, l)
@@ -365,6 +366,20 @@ func (e *explorer) warmSingleSteps(sk *dposkit.Sink) {
 		}
 		in.Close()
 	}
+}
+
+// blockClass qualifies a single-step signature when the undone block holds two transactions: the
+// kinds in block order (the order of the changes inside one height is what such a block tests).
+func blockClass(clause string, h []string) string {
+	if clause != "rollback-vs-direct" || len(h) == 0 || !strings.Contains(h[len(h)-1], "+") {
+		return ""
+	}
+	var ks []string
+	for _, part := range strings.Split(h[len(h)-1], "+") {
+		k, _, _ := strings.Cut(part, ":")
+		ks = append(ks, k)
+	}
+	return "|block=" + strings.Join(ks, "+")
 }
 
 // dirtyOver is the union of the single-step dirty groups of blocks k+1..L of h.
